@@ -34,6 +34,11 @@ def run_history(events, via_file=False):
                 n += 1
         except Exception as e:
             return n, e, 'formatted_traces'
+        try:
+            for cs in p.formatted_callstacks(io.BytesIO(data)):
+                n += 1
+        except Exception as e:
+            return n, e, 'formatted_callstacks'
         return n, None, None
     parser = ev.new_parser()
     for e in events:
